@@ -4,6 +4,7 @@ import (
 	"context"
 	"errors"
 	"net/http"
+	"reflect"
 	"time"
 
 	"github.com/zitadel/oidc/v3/pkg/client"
@@ -140,6 +141,10 @@ func Introspect[R any](ctx context.Context, rp ResourceServer, token string) (re
 
 	if err := httphelper.HttpRequest(rp.HttpClient(), req, &resp); err != nil {
 		return resp, err
+	}
+	// a response body of `null` leaves a pointer typed resp nil
+	if v := reflect.ValueOf(resp); !v.IsValid() || (v.Kind() == reflect.Pointer && v.IsNil()) {
+		return resp, errors.New("resource server: introspection response is empty")
 	}
 	return resp, nil
 }
